@@ -286,6 +286,25 @@ def run(ck):
                     ck.violation("C15.R4", "scalar_mult/out is a view of %s" % which, fi.site(),
                                  "an output buffer that shares its storage with an argument (e.g. out=%s[:]) is accepted: the operand is overwritten while the product is being computed and a wrong value is returned "
                                  "(only `out is %s` is refused)" % (which, which), key="C15.R4|scalar_mult|out-view-of-%s" % which)
+        # ... and so is a buffer that overlaps an argument without starting where it starts (two windows of one work buffer,
+        # work[0:2] and work[1:3]): what has to be compared is the memory the two tensors live in, not their first addresses
+        for which in ("x", "y"):
+            def build_o(it, which=which):
+                from ..ops import subscript
+                from ..values import VSlice
+                work = tens(it, "work", (3, "B"))
+                win0 = subscript(it, work, VSlice(VConst(0), VConst(2), None), None)
+                win1 = subscript(it, work, VSlice(VConst(1), VConst(3), None), None)
+                other = cx(it, "z", ("B",))
+                return ([win0, other] if which == "x" else [other, win0]), {"out": win1}
+            fi, paths = _call(ck, "scalar_mult", build_o)
+            for p in paths:
+                if p.outcome != "raise":
+                    ck.violation("C15.R4", "scalar_mult/out overlaps %s at another offset" % which, fi.site(),
+                                 "an output buffer that lives in the same memory as an argument but starts at another address (out = work[1:3] for %s = work[0:2]) is accepted: "
+                                 "the real part of the product is written over the operand before the imaginary part is computed" % which, key="C15.R4|scalar_mult|out-overlaps-%s" % which)
+                else:
+                    ck.ok("C15.R4", "scalar_mult/out overlaps %s at another offset" % which, fi.site())
         # a distinct buffer is written in place and returned
         def build2(it):
             return [cx(it, "x", ("B",)), cx(it, "y", ("B",))], {"out": cx(it, "o", ("B",))}
